@@ -378,7 +378,8 @@ WD(wrap) == wrap \in {"wd", "both"}       \* through WithoutDealloc
 WS(wrap) == wrap \in {"ws", "both"}       \* through WithoutShrink
 
 \* ---- allocate / allocate_zeroed -----------------------------------------------------------------
-Alloc(l, zeroed, fail) ==
+\* fam / n: the value-level entry point family that carries the request ("" = the allocator interface), see ValueLayout
+AllocG(l, zeroed, fail, fam, n) ==
     /\ Active /\ Free /\ Cardinality(LiveIds) < MaxBlocks
     /\ fail => (CanFail /\ NeedsBase(chunks, cur, l.sz, l.al, ma))
     /\ LET r == DoAlloc(chunks, cur, base, l.sz, l.al, ma, fail)
@@ -391,8 +392,73 @@ Alloc(l, zeroed, fail) ==
           /\ parts' = parts \cap DOMAIN blocks'
           /\ fails' = IF fail THEN fails + 1 ELSE fails
           /\ UNCHANGED <<cfg, ma, frames, cps, dropped>>
-          /\ Step("alloc", [id |-> IF r.ok THEN nextId ELSE 0, sz |-> l.sz, al |-> l.al, zeroed |-> zeroed, fail |-> fail],
+          /\ Step("alloc", [id |-> IF r.ok THEN nextId ELSE 0, sz |-> l.sz, al |-> l.al, zeroed |-> zeroed, fail |-> fail, fam |-> fam, n |-> n],
                   Exp(IF r.ok THEN "ok" ELSE "err", r.addr, [newchunk |-> Len(r.chunks) > Len(chunks)]))
+
+Alloc(l, zeroed, fail) == AllocG(l, zeroed, fail, "", 0)
+
+\* value-level entry points that perform exactly one allocation of a statically known layout
+ValueLayout(fam, n) ==
+    CASE fam \in {"u64", "with_u64", "uninit_u64"}   -> [sz |-> 8, al |-> 8]
+      [] fam = "default_u32"                          -> [sz |-> 4, al |-> 4]
+      [] fam \in {"copy_u8", "fill_with_u8", "str"}   -> [sz |-> n, al |-> 1]
+      [] fam = "cstr_from_str"                        -> [sz |-> n + 1, al |-> 1]
+      [] fam = "clone_u16"                            -> [sz |-> 2 * n, al |-> 2]
+      [] fam \in {"move_u32", "uninit_slice_u32"}     -> [sz |-> 4 * n, al |-> 4]
+      [] fam \in {"fill_u64", "iter_exact_u64"}       -> [sz |-> 8 * n, al |-> 8]
+ValueFams == {"u64", "with_u64", "uninit_u64", "default_u32", "copy_u8", "fill_with_u8", "str", "cstr_from_str", "clone_u16",
+              "move_u32", "uninit_slice_u32", "fill_u64", "iter_exact_u64"}
+AllocValue(fam, n, fail) == n >= 1 /\ AllocG(ValueLayout(fam, n), FALSE, fail, fam, n)
+
+\* ---- alloc_try_with / alloc_try_with_mut ---------------------------------------------------------------------
+\* Result<T, E> is allocated (prepared, for _mut) first, the closure writes into it; Ok: the allocation is shrunk to the
+\* T inside; Err: the arena is rewound to the checkpoint taken before -- unless the closure allocated on its own.
+\* tw = [rsz, ral : layout of Result<T, E>; off : offset of the Ok payload; tsz, tal : layout of T]
+TwFams == { [name |-> "u64_u64",   rsz |-> 16, ral |-> 8,  off |-> 8,  tsz |-> 8,  tal |-> 8],
+            [name |-> "b24_u8",    rsz |-> 25, ral |-> 1,  off |-> 1,  tsz |-> 24, tal |-> 1],
+            [name |-> "a32_u8",    rsz |-> 64, ral |-> 32, off |-> 32, tsz |-> 32, tal |-> 32] }
+
+AllocTryWith(tw, isOk, isMut, inner, fail) ==
+    /\ Active /\ Free /\ Cardinality(LiveIds) + 1 < MaxBlocks
+    /\ isMut => ~inner                      \* with &mut access the closure cannot reach the allocator
+    /\ fail => (CanFail /\ NeedsBase(chunks, cur, tw.rsz, tw.ral, ma))
+    /\ LET cp == Checkpoint
+           \* non-mut: a real allocation; mut: a prepared one (same address computation, the position does not move yet)
+           r  == DoAlloc(chunks, cur, base, tw.rsz, tw.ral, ma, fail)
+           chsP == IF isMut /\ r.ok THEN [r.chunks EXCEPT ![r.cur].pos = IF r.cur = cur THEN chunks[cur].pos ELSE ResetPos(r.chunks[r.cur])]
+                   ELSE r.chunks
+           \* the closure's own allocation (8 bytes, align 8), through the same handle
+           ri == IF inner /\ r.ok THEN DoAlloc(chsP, r.cur, r.base, 8, 8, ma, FALSE) ELSE [ok |-> FALSE, chunks |-> chsP, cur |-> r.cur, base |-> r.base, addr |-> 0]
+           canShrink == ~(inner /\ r.ok /\ ri.ok)
+           chsI == IF inner /\ r.ok /\ ri.ok THEN ri.chunks ELSE chsP
+           curI == IF inner /\ r.ok /\ ri.ok THEN ri.cur ELSE r.cur
+           baseI == IF inner /\ r.ok /\ ri.ok THEN ri.base ELSE r.base
+           taddr == r.addr + tw.off
+           npos == IF cfg.up THEN UpAlign(taddr + tw.tsz, ma) ELSE DownAlign(taddr, ma)
+           fin == IF ~r.ok THEN [chunks |-> r.chunks, cur |-> r.cur]
+                  ELSE IF isOk THEN (IF canShrink THEN [chunks |-> [chsI EXCEPT ![curI].pos = npos], cur |-> curI] ELSE [chunks |-> chsI, cur |-> curI])
+                  ELSE (IF canShrink THEN ResetToCp(chsI, cp) ELSE [chunks |-> chsI, cur |-> curI])
+           tid == nextId
+           iid == IF r.ok /\ isOk THEN nextId + 1 ELSE nextId
+           newblocks == (IF r.ok /\ isOk THEN {tid} ELSE {}) \cup (IF inner /\ r.ok /\ ri.ok THEN {iid} ELSE {})
+       IN /\ ~(inner /\ r.ok /\ ~ri.ok)
+          /\ chunks' = fin.chunks /\ cur' = fin.cur /\ base' = baseI
+          /\ blocks' = [i \in LiveIds \cup newblocks |->
+                          IF i \in LiveIds THEN blocks[i]
+                          ELSE IF i = tid /\ r.ok /\ isOk THEN [addr |-> taddr, sz |-> tw.tsz, al |-> tw.tal]
+                          ELSE [addr |-> ri.addr, sz |-> 8, al |-> 8]]
+          /\ nextId' = nextId + Cardinality(newblocks)
+          /\ order' = order \o (IF r.ok /\ isOk THEN <<tid>> ELSE <<>>) \o (IF inner /\ r.ok /\ ri.ok THEN <<iid>> ELSE <<>>)
+          /\ parts' = parts
+          /\ last' = 0
+          /\ fails' = IF fail THEN fails + 1 ELSE fails
+          /\ UNCHANGED <<cfg, ma, frames, cps, dropped>>
+          /\ Step("try_with", [fam |-> tw.name, ok |-> isOk, mut |-> isMut, inner |-> inner, fail |-> fail,
+                               tid |-> IF r.ok /\ isOk THEN tid ELSE 0, iid |-> IF inner /\ r.ok /\ ri.ok THEN iid ELSE 0,
+                               tsz |-> tw.tsz, tal |-> tw.tal],
+                  Exp(IF ~r.ok THEN "err" ELSE IF isOk THEN "ok" ELSE "errval", IF r.ok /\ isOk THEN taddr ELSE 0,
+                      [rewinds |-> r.ok /\ ~isOk /\ canShrink, iaddr |-> IF inner /\ r.ok /\ ri.ok THEN ri.addr ELSE 0,
+                       newchunk |-> Len(fin.chunks) > Len(chunks)]))
 
 \* ---- deallocate ---------------------------------------------------------------------------------
 Dealloc(id, wrap) ==
